@@ -285,15 +285,16 @@ type worldGen struct {
 // identifiers of every admissible spelling, names equal to generated method names, fields
 // colliding with each other's getters, oneof members colliding with nested types
 var goNamePools = map[string][]string{
-	"M": {"Item", "item", "_Item", "Item_", "I_tem", "item2", "Item2D", "ITEM", "i", "X_y", "Foo", "Bar", "foo_bar", "Get", "M_Foo", "Foo_"},
-	"E": {"Kind", "kind", "_kind", "Kind_", "K_ind", "KIND", "Foo"},
+	"M": {"Item", "item", "_Item", "Item_", "I_tem", "item2", "Item2D", "ITEM", "i", "X_y", "Foo", "Bar", "foo_bar", "Get", "M_Foo", "Foo_", "text_block", "sha256sum", "s3bucket", "v1beta"},
+	"E": {"Kind", "kind", "_kind", "Kind_", "K_ind", "KIND", "Foo", "color3d", "x2y"},
 	"V": {"UNKNOWN", "first", "_second", "Third_", "o_ther", "x", "V1", "v_1"},
 	"f": {"foo", "get_foo", "reset", "string", "proto_message", "descriptor", "marshal", "unmarshal", "extension_map", "extension_range_array", "foo_", "_foo", "foo__bar",
-		"Foo", "fooBar", "foo1", "f_1", "get_reset", "get_get_foo", "x_y_z", "bar", "get_bar", "Reset", "reset_", "get", "get_", "item", "kind"},
-	"of": {"foo", "bar", "item", "kind", "reset", "get_foo", "foo_", "Foo", "baz", "string", "get_bar"},
+		"Foo", "fooBar", "foo1", "f_1", "get_reset", "get_get_foo", "x_y_z", "bar", "get_bar", "Reset", "reset_", "get", "get_", "item", "kind",
+		"sha256sum", "vector3d_point", "s3bucket", "ipv4_address", "x86", "a1b2c3", "utf8_2go"},
+	"of": {"foo", "bar", "item", "kind", "reset", "get_foo", "foo_", "Foo", "baz", "string", "get_bar", "Item", "Kind", "textBlock", "TextBlock", "fooBar", "FooBar", "md5hash", "I"},
 	"o": {"choice", "reset", "string", "which_one", "Choice", "_c", "c_", "get_foo", "descriptor"},
 	"mp": {"labels", "index", "foo_map", "Attrs", "reset"}, "x": {"tag", "ext_1", "_note"},
-	"S": {"Api", "admin_svc", "_Svc", "svc2"}, "Rpc": {"Get", "put_it", "_list", "List2"},
+	"S": {"Api", "admin_svc", "_Svc", "svc2", "s3api"}, "Rpc": {"Get", "put_it", "_list", "List2", "get2nd"},
 }
 
 var namePools = map[string][]string{
@@ -469,7 +470,7 @@ func genWorld(r *rand.Rand, o genOpts) wWorld {
 			}
 			pool := []string{"example.com/gen/alpha", "example.com/gen/beta;betapkg", "example.com/x/go-pkg", "example.com/x/v1.2", "example.com/x/type",
 				"example.com/x/9lives", "bare" + strings.ReplaceAll(dir, ".", "root"), "example.com/gen/alpha", "example.com/y/func;select", "example.com/y/Mixed_Case",
-				"example.com/z/a.b-c;d-e.f", "only/one"}
+				"example.com/z/a.b-c;d-e.f", "only/one", "example.com/a/types", "example.com/b/types", "example.com/a/types", "example.com/b/types"}
 			fp.GoPackage = pool[r.Intn(len(pool))]
 		}
 		if o.locs {
